@@ -10,6 +10,9 @@ CHECKS = {
  "C02": dict(level="exploration", technique="runtime monitoring: differential oracle (same recipe computed unoptimised vs under each optimiser setting, bit-exact) + read-back of requested arrays from storage",
    text="Each generated DAG is executed by the real code unoptimised and under default/multiple-input/legacy/fuse-all/fuse-only optimisers with random always/never-fuse subsets; requested arrays must be bit-identical and present in storage. Held = no difference on the (recipe, optimiser) pairs listed.",
    note="Reference is cubed's own unoptimised run (a common-mode error in both is C01's business). Memory refusals under fusion-forcing optimisers are allowed by the property and not judged.", ref="3/C02"),
+ "C04": dict(level="exploration", technique="runtime monitoring at the admission boundary: wrapping executor entry counter + store tracer + work-directory snapshot around compute/store/to_zarr, judged against the finalized plan's own per-op projected memory at allowed = P-1, P, P+1; post-condition wrappers (icontract on fuse, hand-written on the varargs fuse_multiple) for fused projected memory",
+   text="For generated programs under both optimiser settings and several reserved_mem values the budget is set just below, at and above the plan's own maximum projected memory; an over-budget plan must be refused with no executor entry, no store mutation and no new file (eager and lazy store forms included); a plan within budget must not get the memory error; the default optimiser must not turn a fitting plan into a non-fitting one; fused ops must report at least the memory of the ops they replace.",
+   note="P is taken from the plan cubed itself finalizes under that budget (plans whose shape depends on the budget are re-probed at their own boundary).", ref="3/C04"),
  "C05": dict(level="exploration", technique="runtime monitoring: attributed store-level trace (who wrote which chunk key) + block-write hook on zarr.Array.__setitem__, judged against the chunk grid read back from stored metadata",
    text="Every task of every generated plan runs one at a time under a harness executor that attributes each store write to its task; monitors check one writer task per stored chunk, whole-chunk write regions, and that every chunk of every produced array's grid was written.",
    note="Trusts the tracer's patching of zarr LocalStore/MemoryStore and zarr.Array.__setitem__ to see every write (cross-checked: chunk sets == grid size on the unchanged tree). Store targets supplied by the user are covered by C11's workload.", ref="3/C05"),
